@@ -132,10 +132,10 @@ theorem n_read (o : NObs) (ho : o.slotIsPointer = false) (id i : Nat) :
   simp only at ho; subst ho
   cases c <;> kernel_rfl
 
-/-- the pattern translator (`Generated/SourceFacts.lean`) and the evaluated bodies say the same (ordering code 3 = `AcqRel`) -/
+/-- the pattern translator (`Generated/SourceFacts.lean`) and the evaluated bodies say the same (ordering codes: 3 = `AcqRel`, 4 = `SeqCst` — both have the release and the acquire part the logs record) -/
 theorem facts_agree :
-    SourceFacts.cloneAmount = 1 ∧ SourceFacts.cloneOrdering = 3 ∧ SourceFacts.dropAmount = 1 ∧ SourceFacts.dropOrdering = 3
-    ∧ SourceFacts.loserNodeComp = 2 ∧ SourceFacts.loserNodeOrdering = 3 ∧ SourceFacts.loserTokenComp = 1 ∧ SourceFacts.loserTokenOrdering = 3
+    SourceFacts.cloneAmount = 1 ∧ (SourceFacts.cloneOrdering = 3 ∨ SourceFacts.cloneOrdering = 4) ∧ SourceFacts.dropAmount = 1 ∧ (SourceFacts.dropOrdering = 3 ∨ SourceFacts.dropOrdering = 4)
+    ∧ SourceFacts.loserNodeComp = 2 ∧ (SourceFacts.loserNodeOrdering = 3 ∨ SourceFacts.loserNodeOrdering = 4) ∧ SourceFacts.loserTokenComp = 1 ∧ (SourceFacts.loserTokenOrdering = 3 ∨ SourceFacts.loserTokenOrdering = 4)
     ∧ SourceFacts.teardownWhenPrev = 1 ∧ SourceFacts.teardownRootLast = true ∧ SourceFacts.slotInstallOnlyIfEmpty = true
     ∧ SourceFacts.slotWriteUnderWriteLock = true ∧ SourceFacts.slotReadUnderReadLock = true := by
   decide
